@@ -98,6 +98,15 @@ def _parse_op(description, el_op, invocation, allow_concat=False, implicit_outpu
                 message="The concatenation operator (+) is not allowed in this function.\n%EXPR%",
             )
 
+    # Disallow brackets in or around concatenated axes
+    for expr in op.nodes():
+        if isinstance(expr, stage1.ConcatenatedAxis) and any(stage1.is_in_brackets(c) for c in expr.nodes()):
+            raise SemanticError(
+                invocation=invocation,
+                pos=invocation.indicator.get_pos_for_concat(op),
+                message="Brackets ([]) cannot be used in or around a concatenation (+).\n%EXPR%",
+            )
+
     exprs_in = op.children[0].children
 
     # Get signature that is expected by the elementary operation
